@@ -10,7 +10,7 @@ for arg in "$@"; do
   t=$(cd $wt && PYTHONPATH=$wt /venv/bin/python -m pytest -q -x -p no:cacheprovider 2>&1 | tail -1)
   for c in ${checks//,/ }; do
     cd /verif
-    out=$(PYTHONPATH=$wt ./check $c --tier $tier 2>&1); r=$?
+    out=$(WNMC_EVIDENCE_DIR=/dev/shm/wnmc_eval_evidence PYTHONPATH=$wt ./check $c --tier $tier 2>&1); r=$?
     n=$(echo "$out" | grep -c "^VIOLATION")
     echo "REFACTOR $rid tests=[$t] check=$c tier=$tier rc=$r violations=$n"
     echo "$out" | grep -A1 "^VIOLATION" | grep "key=" | cut -c1-240 | head -4
